@@ -1423,7 +1423,9 @@ class Router(NetworkNode, discriminator="router"):
             self.sys_log.info(f"Frame blocked at port {at_port} by rule {rule}")
             return
 
-        if frame.ip and self.software_manager.arp:
+        # (only a neighbour on the receiving interface's own network is learnt: a packet that came through another router
+        # carries that router's MAC address, not its sender's)
+        if frame.ip and self.software_manager.arp and frame.ip.src_ip_address in from_network_interface.ip_network:
             self.software_manager.arp.add_arp_cache_entry(
                 ip_address=frame.ip.src_ip_address,
                 mac_address=frame.ethernet.src_mac_addr,
